@@ -265,14 +265,18 @@ func (i *insertOnUpdateExecutor) buildBeforeImageSQLParameters(insertStmt *ast.I
 		}
 		for i, col := range insertColumns {
 			columnName := DelEscape(col, types.DBTypeMySQL)
+			// under the name the catalogue gives the column: that is how the index columns are looked up
+			if columnMeta, known := metaData.GetColumnMeta(columnName); known {
+				columnName = columnMeta.ColumnName
+			}
 			val := rowColumns[i]
 			rStr, ok := val.(string)
 			if ok && strings.EqualFold(rStr, sqlPlaceholder) {
 				objects := args[placeHolderIndex]
-				parameterMap[columnName] = append(parameterMap[col], objects)
+				parameterMap[columnName] = append(parameterMap[columnName], objects)
 				placeHolderIndex++
 			} else {
-				parameterMap[columnName] = append(parameterMap[col], driver.NamedValue{
+				parameterMap[columnName] = append(parameterMap[columnName], driver.NamedValue{
 					Ordinal: i + 1,
 					Name:    columnName,
 					Value:   val,
